@@ -9,6 +9,8 @@ library-owned storage and no non-reentrant libc calls there is none.
 from .. import facts, ir, report, witness
 
 NON_REENTRANT = {
+    # state shared beyond the object: the open file description (dup'ed descriptors), descriptor table, process-wide settings
+    'fcntl', 'ioctl', 'dup2', 'dup3', 'setsockopt', 'sigaction', 'sigprocmask', 'umask', 'chdir', 'fchdir', 'setrlimit',
     'strerror', 'localtime', 'gmtime', 'asctime', 'ctime', 'strtok', 'rand', 'srand', 'getenv', 'setenv',
     'putenv', 'setlocale', 'tmpnam', 'readdir', 'getpwnam', 'getpwuid', 'gethostbyname', 'strsignal', 'ttyname',
     'basename', 'dirname', 'getlogin', 'ptsname', 'drand48', 'lrand48', 'mrand48', 'random', 'srandom',
